@@ -59,6 +59,9 @@ def gen_inputs(ctx):
         life = rnd.choice([1, 2, 3, 4, 7, 12, 20, 30, 35] + ([] if ctx.quick else [50, 75, 100]))
         cy = rnd.choice([1, 1, 2, 3, 4, 5, 7, 10, 14])
         cfgs.append(configs.synthetic(rnd, enduse=eu, plant=pl, life=life, cy=cy))
+    for _ in range(ctx.n(12, 300)):   # add-on runs (the add-on report writer needs exactly one construction year)
+        eu = rnd.choice(configs.ENDUSES)
+        cfgs.append(configs.synthetic(rnd, enduse=eu, plant=rnd.choice(configs.ELEC_PLANTS if eu != 2 else [9, 6]), cy=1, addons=True))
     texts = [('synthetic', runner.params_to_text(c)) for c in cfgs]
     texts += [('example:' + n, t) for n, t in configs.example_texts(slow=not ctx.quick)]
     return texts
@@ -92,6 +95,35 @@ def cf_term(R):
     return terms
 
 
+def addon_terms(R):
+    """EconomicsAddOns: add-on and project cash flow, cumulative series, NPV / VIR / MOIC (and IRR root) of an add-on run."""
+    s = R.s
+    A = lambda n: s.v('addeconomics', n)
+    e = R.e
+    cy, life = R.cy, R.life
+    ql, q = econ.qlist15, econ.q15
+    kind = 'KElec' if R.enduse == 1 else ('KHeat' if R.enduse == 2 else 'KCogen')
+    fit = lambda l: l if len(l) == life else [0.0] * life   # a series the end-use does not produce is a one-element placeholder
+    rec = ('{| a_kind := %s; a_cy := %d%%nat; a_ccap := %s; a_coam := %s; a_capex := %s; a_opex := %s; a_egain := %s; a_hgain := %s; '
+           'a_profit := %s;\n a_net := %s; a_heat := %s; a_pE := %s; a_pH := %s |}') % (
+        kind, cy, q(e('CCap')), q(e('Coam')), q(A('AddOnCAPEXTotal')), q(A('AddOnOPEXTotalPerYear')), q(A('AddOnElecGainedTotalPerYear')),
+        q(A('AddOnHeatGainedTotalPerYear')), q(A('AddOnProfitGainedTotalPerYear')),
+        ql(fit(R.series('surfaceplant', 'NetkWhProduced'))), ql(fit(R.series('surfaceplant', 'HeatkWhProduced'))),
+        ql(e('ElecPrice')[cy:]), ql(e('HeatPrice')[cy:]))
+    tol = qconv.q(TOL)
+    pcf = A('ProjectCashFlow')
+    terms = [('addon-cashflow', 'addon_agree %s %s %d%%nat %s %s %s %s %s %s %s %s %s %s %s %s %s %s' % (
+        tol, rec, life, q(A('FixedInternalRate')), qconv.blit(bool(A('discount_initial_year_cashflow'))),
+        ql(A('AddOnElecRevenue')), ql(A('AddOnHeatRevenue')), ql(A('AddOnRevenue')), ql(A('AddOnCashFlow')), ql(pcf),
+        ql(A('AddOnCummCashFlow')), ql(A('ProjectCummCashFlow')), q(A('ProjectNPV')), q(A('ProjectVIR')), q(A('ProjectMOIC')),
+        q(A('AdjustedProjectCAPEX')), q(A('AdjustedProjectOPEX'))))]
+    terms.append(('addon-payback', f'close {tol} (addon_payback 0 {econ.qlistx(A("AddOnCummCashFlow"))}) {econ.qx(A("AddOnPaybackPeriod"))}'))
+    irr = A('ProjectIRR')
+    if irr != 0:
+        terms.append(('addon-irr-root', f'irr_is_root {qconv.q(TOL_IRR)} {q(irr * 100)} {ql(pcf)}'))
+    return terms
+
+
 def report_payback(report):
     m = re.search(r'^\s*Project Payback Period:\s*(.*)$', report or '', re.M)
     return m.group(1).strip() if m else None
@@ -120,9 +152,15 @@ def run_inputs(ctx, texts):
         nontrivial = R.life >= 2 and any(x != 0 for x in e('TotalRevenue')[R.cy:])
         desc = {'origin': origin, 'econ': R.econ, 'enduse': R.enduse, 'plant': R.plant, 'life': R.life, 'cy': R.cy,
                 'carbon': bool(e('DoCarbonCalculations')), 'payback': pb}
-        for stage, term in cf_term(R):
+        stage_terms = cf_term(R)
+        if R.addons and r['snap'].get('addeconomics'):
+            try:
+                stage_terms += addon_terms(R)
+            except (KeyError, TypeError) as ex:
+                ctx.note(f'add-on fields not readable: {ex!r}')
+        for stage, term in stage_terms:
             terms.append(term)
-            owners.append((stage, desc, text, sig if nontrivial else None))
+            owners.append((stage, desc, text, (sig + (R.addons,)) if nontrivial else None))
         # N/A display of a payback that never happens (report text)
         shown = report_payback(r['report'])
         if shown is not None:
@@ -131,10 +169,10 @@ def run_inputs(ctx, texts):
             if not ok:
                 ctx.violate('property', f'payback-display:{R.econ}:{R.enduse}', f'payback {pb} is displayed as {shown!r}',
                             inp={'input_text': text, 'desc': desc}, observed=shown, expected='N/A iff payback == 0')
-        ctx.count('whole-runs', econ=R.econ, enduse=R.enduse, plant=R.plant, life=R.life, cy=R.cy)
+        ctx.count('whole-runs', econ=R.econ, enduse=R.enduse, plant=R.plant, life=R.life, cy=R.cy, addons=R.addons)
         ctx.sample('whole-runs', desc)
     failing = fw.kernel_bools(ctx, 'cashflow', REQ, terms, shard=120)
-    ctx.count('whole-runs', evaluations=len(terms), nontrivial_keys=[o[3] + (o[0],) for o in owners if o[3] is not None])
+    ctx.count('whole-runs', evaluations=len(terms), nontrivial_keys=[tuple(o[3]) + (o[0],) for o in owners if o[3] is not None])
     for i in failing[:8]:
         stage, desc, text, _ = owners[i]
         ctx.violate('property', f'{stage}:econ={desc["econ"]},enduse={desc["enduse"]},plant={desc["plant"]}',
